@@ -168,6 +168,7 @@ TABLE: List[Entry] = [
     ("R-DISPATCH", None, None, {"C15"}),
     # state shared by the solvers of one process: the solvers of the parts of a split run side by side (C11 / C12), any other module-level
     # state is a reproducibility matter (C15)
+    ("R-GLOBAL-STATE", None, "argument-aliased", {"C15"}),  # workers are separate processes: an aliased configuration array leaks between solvers of ONE process only
     ("R-GLOBAL-STATE", None, None, {"C11", "C12", "C15"}, "nucs/solvers/"),
     ("R-GLOBAL-STATE", None, None, {"C15"}),
     # the parts of a split are what the multiprocessing solver enumerates: a part that leaves the declared domain yields out-of-domain
